@@ -254,3 +254,166 @@ func OracleC07(c Case, obs []StepObs) []Finding {
 	})
 	return out
 }
+
+// owed returns the NOTIFICATIONs RFC 4271 section 6 allows as an answer to a transmission (nil: none is
+// owed), and a class name for signatures. Written from the RFC text, independent of bio-rd's decoder.
+func owed(m Msg, c SessCfg) (set []string, class string) {
+	addU := func(s string) {
+		for _, x := range set {
+			if x == s {
+				return
+			}
+		}
+		set = append(set, s)
+	}
+	switch m.Kind {
+	case 'H':
+		if !m.MarkerOK {
+			addU("N1.1")
+			class = "damaged-marker"
+		}
+		if m.Len < 19 || m.Len > 4096 {
+			addU("N1.2")
+			if class == "" {
+				if m.Len < 19 {
+					class = "header-length-below-19"
+				} else {
+					class = "header-length-above-4096"
+				}
+			}
+		}
+		if m.Type == 0 || m.Type > 4 {
+			addU("N1.3")
+			if class == "" {
+				class = "bad-message-type"
+			}
+		}
+		if (m.Type == 1 && m.Len < 29) || (m.Type == 2 && m.Len < 23) || (m.Type == 3 && m.Len < 21) || (m.Type == 4 && m.Len != 19) {
+			addU("N1.2")
+			if class == "" {
+				class = fmt.Sprintf("length-not-fitting-type-%d", m.Type)
+			}
+		}
+		if m.Type == 1 { // zero body: version 0
+			addU("N2.1")
+			if class == "" {
+				class = "open-with-zero-body"
+			}
+		}
+	case 'O':
+		if m.Ver != 4 {
+			addU("N2.1")
+			class = "open-unsupported-version"
+		}
+		if m.ID == 0 {
+			addU("N2.3")
+			if class == "" {
+				class = "open-identifier-zero"
+			}
+		}
+		if m.Hold == 1 || m.Hold == 2 {
+			addU("N2.6")
+			if class == "" {
+				class = "open-hold-time-1-or-2"
+			}
+		}
+	case 'B':
+		switch m.Variant {
+		case "ovt":
+			return []string{"N2.4"}, "undecodable-open-body"
+		case "ocl":
+			return []string{"N2.0", "N2.4"}, "undecodable-open-body"
+		case "uat":
+			return []string{"N3.5"}, "undecodable-update-body"
+		}
+	}
+	return set, class
+}
+
+// OracleC21: nothing a peer sends crashes or wedges the speaker or touches another session; a
+// malformed message is answered with an RFC 4271 section 6 NOTIFICATION, then the connection is closed.
+func OracleC21(c Case, obs []StepObs) []Finding {
+	var out []Finding
+	add := func(sig, d string) { out = append(out, Finding{sig, d}) }
+	broken := make([]bool, len(c.Sess))
+	connOpen := make([]bool, len(c.Sess))
+	walk(c, obs, func(i int, e Event, prev byte, prevAtt bool, o StepObs, po *StepObs) {
+		if o.Panic != "" || o.Wedged != "" {
+			return
+		}
+		where := fmt.Sprintf("step %d (%s): %s -> %s sent=%v", i, e, stateName(prev), stateName(o.State), o.Outs)
+		wasOpen, wasBroken := connOpen[e.Sid], broken[e.Sid]
+		// bookkeeping of the connection the peer talks over
+		switch e.Kind {
+		case "up", "upx":
+			if prev == 'C' || prev == 'A' {
+				broken[e.Sid] = e.Kind == "upx"
+			}
+		case "brk":
+			broken[e.Sid] = true
+		}
+		connOpen[e.Sid] = o.Conn == 'o'
+		// other sessions are not affected by what this session receives
+		if po != nil && e.Kind == "m" {
+			for k := range c.Sess {
+				if k != e.Sid && 2*k+1 < len(o.All) && 2*k+1 < len(po.All) && o.All[2*k:2*k+2] != po.All[2*k:2*k+2] {
+					add("another-session-affected-by-peer-input", where+" all="+po.All+"->"+o.All)
+				}
+			}
+			mine := fmt.Sprintf("%d:", e.Sid)
+			var before, after []string
+			for _, l := range po.Loc {
+				if !strings.HasPrefix(l, mine) {
+					before = append(before, l)
+				}
+			}
+			for _, l := range o.Loc {
+				if !strings.HasPrefix(l, mine) {
+					after = append(after, l)
+				}
+			}
+			if strings.Join(before, ",") != strings.Join(after, ",") {
+				add("another-sessions-routes-affected-by-peer-input", where)
+			}
+		}
+		if e.Kind != "m" || !(prev == 'S' || prev == 'F' || prev == 'E') || !wasOpen || o.ReadErr {
+			return
+		}
+		set, class := owed(e.M, c.Sess[e.Sid])
+		if len(set) == 0 {
+			return
+		}
+		// a malformed message was delivered to a session state
+		if o.State != 'I' && o.State != 'Z' && o.State != 'A' {
+			add("malformed-message-accepted-"+class, where)
+			return
+		}
+		if o.Conn != 'c' {
+			add("connection-not-closed-after-"+class, where)
+		}
+		if wasBroken {
+			return // the NOTIFICATION cannot be written
+		}
+		sent := ""
+		for _, x := range o.Outs {
+			if strings.HasPrefix(x, "N") {
+				sent = x
+				break
+			}
+		}
+		if sent == "" {
+			add("no-notification-for-"+class, where+" owed="+strings.Join(set, "|"))
+			return
+		}
+		ok := false
+		for _, x := range set {
+			if x == sent {
+				ok = true
+			}
+		}
+		if !ok {
+			add("wrong-notification-for-"+class, where+" owed="+strings.Join(set, "|"))
+		}
+	})
+	return out
+}
